@@ -61,7 +61,9 @@ fn split_relspec<'a, 'b>(
     input: &'b str,
     ctx: &'a impl ElementMap,
 ) -> Result<(Option<&'a SvgElement>, &'b str)> {
-    if let Ok((elref, remain)) = extract_elref(input) {
+    // (white space before the reference, e.g. a line break after the opening quote,
+    // means nothing)
+    if let Ok((elref, remain)) = extract_elref(input.trim_start()) {
         if let Some(el) = ctx.get_element(&elref) {
             // Note: essential we don't trim `remain` - if it starts
             // with whitespace, that is significant.
@@ -1260,6 +1262,8 @@ impl SvgElement {
         // wh="#thing" -> width="#thing", height="#thing"
         // wh="#thing 50%" -> width="#thing 50%", height="#thing 50%"
         // wh="#thing 10 20" -> width="#thing 10", height="#thing 20"
+        // (white space around the value, e.g. a line break after the quote, means nothing)
+        let value = value.trim();
         if value.starts_with([ELREF_ID_PREFIX, ELREF_PREVIOUS]) {
             let mut parts = value.splitn(2, char::is_whitespace);
             let prefix = parts.next().expect("nonempty");
